@@ -16,7 +16,24 @@ pub mod ctxprint {
 	use std::fmt;
 
 	pub struct Ctx;
+	#[derive(PartialEq, Eq, Hash)]
 	pub struct Item(pub Value);
+	/// a user container that is a SET of items (`HashSet<T>: PrintWithSizeAndContext`): printed like the JSON array of its items
+	/// in the set's iteration order; returns the text and that order
+	pub struct ItemSet(pub std::collections::HashSet<Item>);
+	impl PrintWithContext<Ctx> for ItemSet {
+		fn contextual_fmt_with(&self, c: &Ctx, f: &mut fmt::Formatter, options: &Options, indent: usize) -> fmt::Result {
+			let mut sizes = Vec::new();
+			self.0.contextual_pre_compute_size(c, options, &mut sizes);
+			let mut index = 0;
+			self.0.contextual_fmt_with_size(c, f, options, indent, &sizes, &mut index)
+		}
+	}
+	pub fn print_set(items: &[Value], o: Options) -> (String, Vec<Value>) {
+		let set = ItemSet(items.iter().map(|v| Item(v.clone())).collect());
+		let order: Vec<Value> = set.0.iter().map(|i| i.0.clone()).collect();
+		(set.with(&Ctx).print_with(o).to_string(), order)
+	}
 	impl PrecomputeSizeWithContext<Ctx> for Item {
 		fn contextual_pre_compute_size(&self, _c: &Ctx, options: &Options, sizes: &mut Vec<Size>) -> Size {
 			self.0.pre_compute_size(options, sizes)
@@ -280,6 +297,23 @@ pub fn replay_print(rep: &mut Report, rec: &J) {
 			Ok(t) if t == exp => (),
 			Ok(t) => rep.mismatch("C13.contextual", json!({"what": "a user container printed through the contextual layer (print_array / pre_compute_array_size over Meta<Stripped<T>>) is not laid out like the JSON array of the same items", "vector": rec, "observed": t})),
 			Err(p) => rep.mismatch("C13.panic", json!({"what": "contextual printing panicked", "vector": rec, "panic": p})),
+		}
+	}
+	// ... and a user SET of the items: the layout of the JSON array of the set's items in the set's iteration order (with
+	// one distinct item that is the specified text itself; otherwise the slice route, which the line above ties to the
+	// specification, is the reference)
+	if let Value::Array(items) = &v {
+		if items.len() <= 4 {
+			match guarded(|| {
+				let (t, order) = ctxprint::print_set(items, o.clone());
+				let reference = if order.as_slice() == items.as_slice() { exp.clone() } else { Value::Array(order).print_with(o.clone()).to_string() };
+				(t, reference)
+			}) {
+				Ok((t, reference)) if t == reference => (),
+				Ok((t, reference)) => rep.mismatch("C13.contextual", json!({"what": "a user set printed through the contextual layer (HashSet<T>) is not laid out like the JSON array of its items", "vector": rec, "observed": t, "expected_text": reference})),
+				Err(p) => rep.mismatch("C13.panic", json!({"what": "contextual printing of a set panicked", "vector": rec, "panic": p})),
+			}
+			rep.count("print_calls");
 		}
 	}
 	if rep.counters["print_vectors"] % 4 == 0 {
